@@ -62,6 +62,10 @@ class Ctx:
             shutil.rmtree(self.out)
         os.makedirs(self.out, exist_ok=True)
         os.makedirs(BIN, exist_ok=True)
+        # replays of earlier runs of this property are stale: start clean
+        rp = os.path.join(ROOT, 'replays', prop)
+        if os.path.isdir(rp):
+            shutil.rmtree(rp, ignore_errors=True)
         self.notes = []          # free text for the evidence
         self.violations = []     # dicts: {what, key, replay(obj), no_input(bool)}
         self.coverage = {}       # merged into evidence coverage
